@@ -140,7 +140,7 @@ def _cmp_tags(ctx, bad, label, pattern, vtags, got):
     return ok
 
 
-def _observe_view(ctx, bad, label, fresh, vtags, full):
+def _observe_view(ctx, bad, label, fresh, vtags, full, relfree):
     """All tag-level observations of one view.  `fresh()` returns a new Dynamic object of the image.  `full`: this view
     takes the object's turn for the costlier patterns (every view gets its turn on every third object)."""
     out = {}
@@ -150,8 +150,10 @@ def _observe_view(ctx, bad, label, fresh, vtags, full):
         try:
             got = _observe_tags(d, pattern)
         except Exception as ex:
-            bad('exception.tags', 'tags in pattern %s' % pattern, 'exc:%s:%s' % (type(ex).__name__, ex), label,
-                tag='non-utf8' if isinstance(ex, UnicodeDecodeError) else None)
+            if isinstance(ex, UnicodeDecodeError):
+                bad('strings.decode', 'a string in every view (pattern %s)' % pattern, 'exc:UnicodeDecodeError', label, tag='non-utf8')
+            else:
+                bad('exception.tags', 'tags in pattern %s' % pattern, 'exc:%s:%s' % (type(ex).__name__, ex), label)
             continue
         _cmp_tags(ctx, bad, label, pattern, vtags, got)
         rows = [_tag_row(t) for t in got]
@@ -188,7 +190,7 @@ def _observe_view(ctx, bad, label, fresh, vtags, full):
                 have = list(d.get_table_offset(rows[i]['d_tag']))
                 if have != want:
                     bad('get_table_offset', {'tag': rows[i]['d_tag'], 'ptr,offset': want}, have, label)
-            if full:
+            if full and relfree:
                 rt = d.get_relocation_tables()
                 if rt != {}:
                     bad('get_relocation_tables', {}, sorted(rt), label)
@@ -321,7 +323,7 @@ def _replay(run, ctx, obj, ELFFile):
                     continue
                 if label == 'stripped' and d.elffile.num_sections() != 0:
                     bad('front-end', 'no sections', d.elffile.num_sections(), label)
-                obs[label] = _observe_view(ctx, bad, label, fresh, view['tags'], vi == turn)
+                obs[label] = _observe_view(ctx, bad, label, fresh, view['tags'], vi == turn, view['relfree'])
                 if label != 'section':
                     obs[label]['syms'], note = _observe_symbols(ctx, bad, label, fresh(), view, cclass)
                     if note and cclass.startswith('gnu-empty'):
@@ -330,8 +332,10 @@ def _replay(run, ctx, obj, ELFFile):
             bad('timeout', 'an answer', str(ex), label)
         except Exception as ex:
             import traceback
-            bad('exception', 'no exception', 'exc:%s:%s @ %s' % (type(ex).__name__, ex, traceback.format_exc().splitlines()[-3].strip()),
-                label, tag='non-utf8' if isinstance(ex, UnicodeDecodeError) else None)
+            if isinstance(ex, UnicodeDecodeError):
+                bad('strings.decode', 'a string in every view', 'exc:UnicodeDecodeError', label, tag='non-utf8')
+            else:
+                bad('exception', 'no exception', 'exc:%s:%s @ %s' % (type(ex).__name__, ex, traceback.format_exc().splitlines()[-3].strip()), label)
     # the views against each other
     for a, b in (('section', 'segment'), ('segment', 'stripped'), ('section', 'stripped')):
         if a in obs and b in obs and obs[a].get('rows') is not None and obs[b].get('rows') is not None:
